@@ -44,6 +44,7 @@ ACCESSOR_EXTRA_ERRORS = {
     "mro": (ValueError, AttributeError),
     "resolved_bases": (AttributeError,),
     "resolve_name": (),
+    "as_json_full": (ValueError,),  # relative_package_filepath documents ValueError (stub-only module of a -stubs package elsewhere)
     "getitem": (KeyError,),
 }
 CALL_BUDGET = 3_000_000
@@ -243,6 +244,15 @@ def generate(rng, opts):
         # package was registered in the collection
         for pkg in rng.sample(["ext", "_p"], rng.choice([1, 2])):
             stubs[pkg] = rng.choice(["ok", "broken", "broken"])
+    stubs_pkgs = {}
+    if rng.random() < 0.2:
+        # a separate <pkg>-stubs package (PEP 561) in another search path; it may hold stub-only modules whose imports
+        # dangle like any other; the package is then loaded with find_stubs_package=True
+        pkg = rng.choice(list(layout))
+        smods = {"__init__": _gen_module(rng, full_layout, pkg, True, cfg)}
+        for name in rng.sample(["extra", "x", "y"], rng.choice([1, 2])):
+            smods[name] = _gen_module(rng, full_layout, f"{pkg}.{name}", False, cfg)
+        stubs_pkgs[pkg] = {k: [st for st in v if st["s"] not in ("syntax_error",)] for k, v in smods.items()}
     faults = []
     if cfg["faults"]:
         victims = [mp for mp in modules if mp.split(".")[0] in extra] or list(modules)
@@ -290,7 +300,7 @@ def generate(rng, opts):
         ops.append({"op": "resolve", "loader": 0, "implicit": True, "external": rng.choice([True, False, None]), "max_iter": None})
     if rng.random() < 0.3:
         ops.append({"op": "json"})
-    return {"world": {"modules": modules, "stubs": stubs}, "faults": faults, "ops": ops, "cfg": cfg}
+    return {"world": {"modules": modules, "stubs": stubs, "stubs_pkgs": stubs_pkgs}, "faults": faults, "ops": ops, "cfg": cfg}
 
 
 # ------------------------------------------------------------------------------------------------
@@ -307,7 +317,12 @@ def render_world(world):
     for pkg, kind in world.get("stubs", {}).items():
         if pkg in mods:
             files[f"{pkg}/__init__.pyi"] = "def f() -> int: ...\n" if kind == "ok" else "def f(:\n"
-    return [files]
+    sp1 = {}
+    for pkg, smods in world.get("stubs_pkgs", {}).items():
+        if pkg in mods:
+            for name, stmts in smods.items():
+                sp1[f"{pkg}-stubs/{name}.pyi"] = "".join(_render_stmt(s) for s in stmts) or "\n"
+    return [files, sp1] if sp1 else [files]
 
 
 def _mod_relpath(world, mp):
@@ -492,7 +507,7 @@ def _execute(plan, ctx, budget_mode):
             for oi, op in enumerate(plan["ops"]):
                 ctx.steps += 1
                 kind = op["op"]
-                ok = _step(ctx, griffe, w, coll, loaders, tracker, op, budget_mode, faulty_pkgs, all_pkgs, trace)
+                ok = _step(ctx, griffe, w, coll, loaders, tracker, op, budget_mode, faulty_pkgs, all_pkgs, trace, world)
                 if not ok or ctx.failures:
                     break
                 if not _check_structure(ctx, griffe, coll, tracker, all_pkgs, budget_mode):
@@ -504,7 +519,8 @@ def _execute(plan, ctx, budget_mode):
         ctx.cover.append((tuple(trace), core.hash_key(_digest(coll))))
 
 
-def _step(ctx, g, w, coll, loaders, tracker, op, budget_mode, faulty_pkgs, all_pkgs, trace):
+def _step(ctx, g, w, coll, loaders, tracker, op, budget_mode, faulty_pkgs, all_pkgs, trace, world=None):
+    world = world or {}
     kind = op["op"]
     alias_errors = (g.AliasResolutionError, g.CyclicAliasError)
     try:
@@ -512,7 +528,8 @@ def _step(ctx, g, w, coll, loaders, tracker, op, budget_mode, faulty_pkgs, all_p
             loader = loaders[op["loader"]]
             exists = op["pkg"] in all_pkgs
             try:
-                _run_op(lambda: loader.load(op.get("objspec", op["pkg"]), try_relative_path=False, submodules=op.get("submodules", True)), budget_mode)
+                fsp = op["pkg"] in world.get("stubs_pkgs", {})
+                _run_op(lambda: loader.load(op.get("objspec", op["pkg"]), try_relative_path=False, submodules=op.get("submodules", True), find_stubs_package=fsp), budget_mode)
                 ctx.log("load", (op["pkg"], op["loader"], "ok"))
                 trace.append("load")
             except (KeyError, g.AliasResolutionError, g.CyclicAliasError) as e:
@@ -636,6 +653,11 @@ def _step(ctx, g, w, coll, loaders, tracker, op, budget_mode, faulty_pkgs, all_p
                     _run_op(lambda: mod.as_json(full=True), budget_mode)
                 except alias_errors:
                     pass
+                except ValueError as e:
+                    if "relative_package_filepath" not in core.griffe_frames(e, limit=20) and "relative_filepath" not in core.griffe_frames(e, limit=20):
+                        ctx.fail("I1-json-raised", f"{mod.path}.as_json(full=True) raised ValueError: {w.norm(str(e))[:200]}", exc=e)
+                        return False
+                    ctx.probe("full-json-valueerror-relative-filepath(C08 matter)")
                 except Exception as e:  # noqa: BLE001
                     ctx.fail("I1-json-raised", f"{mod.path}.as_json(full=True) raised {type(e).__name__}: {w.norm(str(e))[:200]}", exc=e)
                     return False
